@@ -337,6 +337,25 @@ class Normaliser:
         if isinstance(value, ast.Call) and len(value.args) >= 1 and isinstance(value.args[0], ast.ListComp) and \
                 U(value.func) in ('np.array', 'numpy.array', 'list', 'tuple', 'np.asarray'):
             wrap, comp = value, value.args[0]
+        if isinstance(comp, ast.DictComp) and wrap is None and len(comp.generators) == 1 and not comp.generators[0].is_async and \
+                any(isinstance(c, ast.Call) and self.resolve(c, local_funcs, stack) is not None
+                    for part in (comp.key, comp.value) for c in ast.walk(part)):
+            # X = {K: V for t in it if c}  ->  acc = {}; for t in it: if c: acc[K] = V; X = acc
+            g = comp.generators[0]
+            acc = self.fresh('acc')
+            body = [ast.Assign(targets=[ast.Subscript(value=ast.Name(id=acc, ctx=ast.Load()), slice=comp.key, ctx=ast.Store())],
+                               value=comp.value)]
+            for cond in reversed(g.ifs):
+                body = [ast.If(test=cond, body=body, orelse=[])]
+            loop = ast.For(target=g.target, iter=g.iter, body=body, orelse=[])
+            init = ast.Assign(targets=[ast.Name(id=acc, ctx=ast.Store())], value=ast.Dict(keys=[], values=[]))
+            final_val = ast.Name(id=acc, ctx=ast.Load())
+            last = ast.Return(value=final_val) if isinstance(s, ast.Return) else ast.Assign(targets=s.targets, value=final_val)
+            out = [init, loop, last]
+            for n in out:
+                ast.copy_location(n, s)
+                ast.fix_missing_locations(n)
+            return out
         if not (isinstance(comp, ast.ListComp) and len(comp.generators) == 1 and not comp.generators[0].is_async):
             return None
         if not any(isinstance(c, ast.Call) and self.resolve(c, local_funcs, stack) is not None for c in ast.walk(comp.elt)):
